@@ -3,10 +3,19 @@ use std::collections::{BinaryHeap, HashSet};
 use std::hash::Hash;
 use std::sync::Arc;
 
+#[cfg(not(cached_verif))]
 use dashmap::DashMap;
+#[cfg(cached_verif)]
+use crate::verif_rt::sync::dashmap::DashMap;
+#[cfg(not(cached_verif))]
 use dashmap::mapref::multiple::RefMulti;
+#[cfg(cached_verif)]
+use crate::verif_rt::sync::dashmap::mapref::multiple::RefMulti;
 use log::info;
+#[cfg(not(cached_verif))]
 use parking_lot::RwLock;
+#[cfg(cached_verif)]
+use crate::verif_rt::sync::parking_lot::RwLock;
 
 use crate::cache::key_description::KeyDescription;
 use crate::cache::policy::config::CacheWeightConfig;
